@@ -199,4 +199,5 @@ ContractHoldsButN1 == viol \in {"ok", "C14_CallReturnsOutput"}
 TypeOK == /\ ost \in {"PENDING", "FINISHED", "CANCELLED"} /\ fs \subseteq Used
           /\ (done => ost # "PENDING" \/ \E t \in Threads : todo[t] # <<>>)
 View == <<cfg, impl, seen, ended, RankView(obs), viol>>
+ViewRaw == <<cfg, impl, seen, ended, obs, viol>>
 =============================================================================
